@@ -157,6 +157,31 @@ def containers():
         return a
     yield 'mutual', mutual
 
+    def self_list_under_map():
+        r = []
+        r.append(r)
+        return {'k': r}
+    yield 'self-list-under-map', self_list_under_map
+
+    def self_dict_under_list_under_map():
+        d = {'a': 1}
+        d['me'] = d
+        return {'outer': [d], 'again': d}
+    yield 'self-dict-under-map', self_dict_under_list_under_map
+
+    def cycle_through_map_value():
+        a = []
+        b = {'v': a}
+        a.append(b)
+        return {'root': {'inner': a}}
+    yield 'cycle-under-nested-map', cycle_through_map_value
+
+    def self_set_holder():
+        r = [1]
+        r.append([r, {'k': r}])
+        return {'x': [r], 'y': {'z': r}}
+    yield 'self-list-two-ways', self_set_holder
+
     def two_parents():
         leaf = ['x']
         return {'p': [leaf], 'q': {'k': leaf}}
